@@ -58,7 +58,7 @@ def add_call(h, rnd, inv, stale=False, kind=None):
 
 def gen_history(rnd, maxops, invs, p_stale=0.2, allow_cfg=True, sessions=0.15):
     cfgv = list(cl.DEFAULT_CFG)
-    cfgv[cl.ALGO] = rnd.choice([0, 1, 2, 3, 4, 5, 6, 7])
+    cfgv[cl.ALGO] = rnd.choice([0, 1, 2, 3, 4, 5, 6, 7, 8])
     cfgv[cl.ALGO_PRM] = rnd.choice([-1, 0, 7, 300])
     cfgv[cl.STD] = rnd.choice([2006, 2013, 2020, 2020])
     cfgv[cl.USE_SRV] = rnd.choice([1, 1, 0])
